@@ -153,6 +153,9 @@ func (g *gen) execCall(fr *frame, cur *node, st *State, c *ssa.CallCommon, pos t
 		g.errorf("%s: no contract for callee %s (at %s)", g.name, key, g.pos(pos))
 		return mkResult(), cur
 	}
+	if g.fs != nil && g.fs.BoundedAlloc && !fs.BoundedAlloc && !fs.Pure {
+		g.addObl(cur, "alloc", "alloc:call:"+shortKey(fs.Key), "callee has no boundedalloc clause", g.pos(pos), "false", false)
+	}
 	if fs.Assumed || fs.Trusted {
 		g.used["assumed:"+fs.Key] = true
 	} else {
